@@ -124,17 +124,23 @@ def h_request(S, B):
     rig.reset(S)
     del TRAFFIC[:]
     forwarding = B["MODE"] == "forwarding"
-    mkind = S.choice("method_kind", ["GET", "POST"] if forwarding else ["GET", "POST", "OPTIONS", "other"])
+    member_part = None
+    mkind = S.choice("method_kind", ["GET", "POST"] if forwarding else B.get("METHODS", ["GET", "POST", "OPTIONS", "other"]))
     method = mkind if mkind != "other" else S.str("REQUEST_METHOD", B["LM"])
     if mkind == "other":
         S.assume(And(Not(eq(method, "GET")), Not(eq(method, "POST")), Not(eq(method, "OPTIONS"))), "the 'other' request method is none of GET/POST/OPTIONS")
+    routing = B["MODE"] == "routing"
     if forwarding:
         # fixed, authorised object; the member part of the path is symbolic
         path = "/pyro/http.obj/" + S.str("member", B["L"])
-    else:
+    elif routing:
         path = S.str("PATH_INFO", B["L"], 0, NO_NEWLINE)
+    else:
+        # authorisation: symbolic object name under a few path prefixes, with a real member behind it
+        member_part = S.choice("member_part", B["MEMBERS"])
+        path = S.choice("path_prefix", B["PREFIXES"]) + S.str("object_name", B["L"], 0, NO_NEWLINE) + member_part
     call_like = mkind in ("GET", "POST")
-    keycfg = S.choice("configured_key", ["none"] if (forwarding or not call_like) else ["none", "empty", "set"])
+    keycfg = S.choice("configured_key", ["none"] if (forwarding or routing or not call_like) else ["none", "empty", "set"])
     configured = None if keycfg == "none" else (b"" if keycfg == "empty" else S.bytes("gateway_key", 2))
     if keycfg == "set":
         S.assume(And(configured[0] < 128, configured[1] < 128), "the configured key is ASCII")
@@ -142,11 +148,11 @@ def h_request(S, B):
                             if call_like else ["none"])
     header_key = S.str("key_header", 2, 0, ASCII) if presentation in ("header", "both") else None
     param_key = S.str("key_param", 2, 0, ASCII) if presentation in ("param", "both") else None
-    pattern = S.choice("expose_pattern", PATTERNS[:1] if (forwarding or not call_like) else PATTERNS)
+    pattern = S.choice("expose_pattern", PATTERNS[:1] if (forwarding or not call_like) else (PATTERNS[1:2] if routing else PATTERNS))
     oneway_opt = S.flag("oneway_option") if forwarding else False
     RecordingProxy.reply_is_exception = S.bool("remote_call_raises") if forwarding else False
     params = {}
-    if forwarding and S.flag("has_parameter"):
+    if not routing and (forwarding or member_part == "/echo") and S.flag("has_parameter"):
         params["message"] = S.str("param_value", 2)
     if param_key is not None:
         params["$key"] = param_key
@@ -267,12 +273,18 @@ STUBS = [st for st in rig.STUBS if st[1] in ("uuid4", "UUID", "format_traceback"
 ]
 
 SPECS = [
-    Spec("authorisation", h_request, {"quick": {"L": 9, "LM": 4, "MODE": "auth"}, "thorough": {"L": 13, "LM": 7, "MODE": "auth"}},
-         covers=["status:200", "status:403", "status:404", "status:405", "forwarded", "denied", "index",
-                 "check:forwarded-only-with-the-right-key",
+    Spec("routing", h_request, {"quick": {"L": 8, "LM": 4, "MODE": "routing"}, "thorough": {"L": 11, "LM": 7, "MODE": "routing"}},
+         covers=["status:200", "status:302", "status:404", "status:405", "index", "denied"],
+         native_patch=env.native_env, reset=_reset,
+         desc="one WSGI request with symbolic REQUEST_METHOD (any code points) and fully symbolic PATH_INFO (any code points except newline), no key, empty expose pattern"),
+    Spec("authorisation", h_request, {"quick": {"L": 6, "LM": 4, "MODE": "auth", "METHODS": ["GET"], "PREFIXES": ["/pyro/", "/pyrox/"], "MEMBERS": ["/echo", "/$meta", ""]},
+                                      "thorough": {"L": 8, "LM": 7, "MODE": "auth", "METHODS": ["GET", "POST"], "PREFIXES": ["/pyro/", "pyro/", "//pyro/", "/pyrox/"],
+                                                   "MEMBERS": ["/echo", "/$meta", "/value", "", "/"]}},
+         covers=["status:200", "status:403", "status:404", "forwarded", "denied",
+                 "check:forwarded-only-with-the-right-key", "check:exactly-the-query-parameters",
                  "check:forwarded-only-if-the-pattern-allows-the-object"],
          native_patch=env.native_env, reset=_reset,
-         desc="one WSGI request with symbolic REQUEST_METHOD and PATH_INFO (any code points except newline), key header and $key parameter (symbolic), configured key none/empty/symbolic 2 bytes, three expose patterns; name server and proxy transport are recording stubs under the real Proxy attribute routing"),
+         desc="a call request <prefix><object name>/<member> with a symbolic object name (any code points except newline) under four path prefixes and five member parts, key header and $key parameter (symbolic ASCII), configured key none/empty/symbolic 2 bytes, three expose patterns, optional query parameter; name server and proxy transport are recording stubs under the real Proxy attribute routing"),
     Spec("forwarding", h_request, {"quick": {"L": 7, "LM": 4, "MODE": "forwarding"}, "thorough": {"L": 12, "LM": 7, "MODE": "forwarding"}},
          covers=["status:200", "status:500", "forwarded", "check:exactly-the-query-parameters", "check:exactly-the-named-object-and-member", "check:status-follows-the-reply",
                  "check:only-$meta-answers-without-a-call"],
